@@ -30,8 +30,8 @@ def run(ctx):
         ctx.coverage.setdefault("design_refutations", []).append(
             {"hash_rule": rule, "violated": r.violated, "states": r.distinct, "depth": r.depth})
     q = ctx.quick
-    sims = [("Sim_IndexEdit.cfg", 6 if q else 60, 7 if q else 12), ("Sim_IndexFresh.cfg", 5 if q else 30, 7 if q else 10),
-            ("Sim_IndexAll.cfg", 5 if q else 60, 7 if q else 12)]
+    sims = [("Sim_IndexScript.cfg", 10 if q else 60, 5 if q else 8), ("Sim_IndexEdit.cfg", 2 if q else 60, 6 if q else 12),
+            ("Sim_IndexFresh.cfg", 2 if q else 30, 6 if q else 10), ("Sim_IndexAll.cfg", 2 if q else 60, 6 if q else 12)]
     res = ic.tour(ctx, sims, {"crash": True, "torn": not q}, cats, "C13")
     pts = sum(x.get("crash_points", 0) for x in res)
     ctx.set("crash_points_executed", pts)
